@@ -42,12 +42,94 @@ func (s *sent) expected() any {
 	return e
 }
 
+// ---------------------------------------------------------------- receive-buffer shapes (buffer pool)
+//
+// A decoder is handed a *bytes.Buffer, and how that buffer sits in memory is history the
+// caller's buffer pool decides: exactly sized; with a few consumed bytes in front and some
+// spare capacity behind; or a slice of a long-lived 16 MiB receive arena, so that the unread
+// bytes are followed by megabytes of spare capacity holding stale data.
+
+var arena []byte
+var arenaDirty int
+
+const arenaStale = 0xEE
+
+type bufShape struct {
+	kind  int // 0 exact, 1 small lead/slack, 2 arena
+	lead  int
+	slack int
+}
+
+func drawBufShape(t *Tape) bufShape {
+	switch t.Intn(8) {
+	case 0, 1, 2, 3:
+		return bufShape{}
+	case 4:
+		return bufShape{kind: 1, lead: 3, slack: 1}
+	case 5:
+		return bufShape{kind: 1, lead: 64, slack: 4096}
+	case 6:
+		return bufShape{kind: 2}
+	default:
+		return bufShape{kind: 2, lead: 17}
+	}
+}
+
+func (sh bufShape) String() string {
+	switch sh.kind {
+	case 0:
+		return "exactly-sized buffer"
+	case 1:
+		return fmt.Sprintf("buffer with %d consumed bytes in front and %d bytes spare capacity", sh.lead, sh.slack)
+	}
+	return fmt.Sprintf("buffer carved from a 16 MiB receive arena (%d consumed bytes in front, megabytes of stale spare capacity behind)", sh.lead)
+}
+
+// build places w in a buffer of this shape.  The returned buffer's unread bytes are a private
+// copy of w in every case.
+func (sh bufShape) build(c *RunCtx, w []byte) *bytes.Buffer {
+	switch {
+	case sh.kind == 1:
+		arr := make([]byte, sh.lead+len(w), sh.lead+len(w)+sh.slack)
+		for i := 0; i < sh.lead; i++ {
+			arr[i] = arenaStale
+		}
+		copy(arr[sh.lead:], w)
+		full := arr[:cap(arr)]
+		for i := len(arr); i < len(full); i++ {
+			full[i] = arenaStale
+		}
+		buf := bytes.NewBuffer(arr)
+		buf.Next(sh.lead)
+		c.Fire("pool.shape")
+		return buf
+	case sh.kind == 2 && sh.lead+len(w) <= 4<<20:
+		if arena == nil {
+			arena = make([]byte, 16<<20)
+			for i := range arena {
+				arena[i] = arenaStale
+			}
+		}
+		for i := 0; i < arenaDirty; i++ {
+			arena[i] = arenaStale
+		}
+		n := sh.lead + len(w)
+		copy(arena[sh.lead:], w)
+		arenaDirty = n
+		buf := bytes.NewBuffer(arena[:n])
+		buf.Next(sh.lead)
+		c.Fire("pool.bigcap")
+		return buf
+	}
+	return bytes.NewBuffer(cloneBytes(w))
+}
+
 // ---------------------------------------------------------------- C07
 
 func init() {
 	register(&scenario{
 		Prop: "C07", Run: runC07, Level: "exploration", Quick: 100000, Thorough: 4000000,
-		Rule: "one run = either (direct) one canonical message of one of the 170 types followed by seeded trailing bytes, decoded once; or (same buffer) 1-8 messages of mixed types encoded back to back into ONE buffer (optionally behind already-consumed bytes, with seeded capacity slack and trailing bytes) and recovered by successive decodes from that same buffer object, so decodes start at non-zero read offsets; or (pipeline) 1-3 simulated connections, each carrying 1-8 canonical messages of mixed types encoded back to back into one send buffer, delivered by the simulated wire in seeded segments (all at once / 1-byte dribble / random sizes / cuts at field boundaries) with connections interleaved, to a receiver running the accumulate-and-try-decode loop on private copies. Oracles: decode consumes exactly the message's bytes, the rest is untouched and unread; delivered sequence deep-equals the sent sequence (exactly once, in order); connection buffer ends empty. Fault-free configuration (segmentation only). Non-trivial = trailing bytes / segmentation / batching actually occurred and an oracle ran; distinct = distinct run fingerprints.",
+		Rule:        "one run = either (direct) one canonical message of one of the 170 types followed by seeded trailing bytes, decoded once; or (same buffer) 1-8 messages of mixed types encoded back to back into ONE buffer (optionally behind already-consumed bytes, with seeded capacity slack and trailing bytes) and recovered by successive decodes from that same buffer object, so decodes start at non-zero read offsets; or (pipeline) 1-3 simulated connections, each carrying 1-8 canonical messages of mixed types encoded back to back into one send buffer, delivered by the simulated wire in seeded segments (all at once / 1-byte dribble / random sizes / cuts at field boundaries) with connections interleaved, to a receiver running the accumulate-and-try-decode loop on private copies. Oracles: decode consumes exactly the message's bytes, the rest is untouched and unread; delivered sequence deep-equals the sent sequence (exactly once, in order); connection buffer ends empty. Fault-free configuration (segmentation only). Non-trivial = trailing bytes / segmentation / batching actually occurred and an oracle ran; distinct = distinct run fingerprints.",
 		Assumptions: []string{"values canonical w.r.t. the pinned schema", "self-computed frame fields are compared with what the encoder put on the wire (their correctness is C04/C05)"},
 	})
 }
@@ -111,8 +193,18 @@ func c07SameBuffer(c *RunCtx, g *Gen) {
 		c.Fire("hist.trailing")
 	}
 	off := lead
+	reuse := t.Intn(2) == 1
+	pool := map[string]any{}
 	for i, s := range sents {
 		recv := newValue(s.name)
+		if reuse {
+			if v, ok := pool[s.name]; ok {
+				recv = v
+				c.Fire("recv.dirty")
+			} else {
+				pool[s.name] = recv
+			}
+		}
 		r := tryDecode(recv, buf)
 		if r.Panic != nil {
 			c.Fail("C07/panic", s.name, "decode #%d (%s) from the shared buffer at read offset %d panicked: %v", i, s.name, off, r.Panic)
@@ -308,13 +400,30 @@ func c07Pipeline(c *RunCtx, g *Gen) {
 	if nconn > 1 {
 		c.Probe("connections-interleaved")
 	}
+	// receive loops keep one message object per type and decode into it again and again -
+	// including after a failed attempt on a partial frame
+	reuse := t.Intn(2) == 1
+	pool := map[string]any{}
+	receiver := func(cn *conn, name string) any {
+		if !reuse {
+			return newValue(name)
+		}
+		k := fmt.Sprintf("%d/%s", cn.id, name)
+		if v, ok := pool[k]; ok {
+			c.Fire("recv.dirty")
+			return v
+		}
+		v := newValue(name)
+		pool[k] = v
+		return v
+	}
 	deliver := func(cn *conn) {
 		// try-decode loop on private copies of the accumulated bytes
 		for cn.next < len(cn.sent) {
 			exp := cn.sent[cn.next]
 			private := cloneBytes(cn.acc)
 			buf := bytes.NewBuffer(private)
-			recv := newValue(exp.name)
+			recv := receiver(cn, exp.name)
 			r := tryDecode(recv, buf)
 			if r.Panic != nil {
 				c.Fail("C07/panic", exp.name, "conn %d: try-decode of %s on %d accumulated bytes panicked: %v", cn.id, exp.name, len(cn.acc), r.Panic)
@@ -385,7 +494,7 @@ func c07Pipeline(c *RunCtx, g *Gen) {
 func init() {
 	register(&scenario{
 		Prop: "C11", Run: runC11, Level: "fault_enumeration", Quick: 120000, Thorough: 4000000,
-		Rule: "one run = one canonical message of one of the 170 types (seeded value); the connection is cut after k bytes for EVERY k in 0..len-1 when the encoding is at most 4096 bytes, otherwise for 64 seeded positions plus the first field boundaries +-1; each prefix is decoded by a fresh receiver. Oracle: Decode(w[:k]) returns a non-nil error for every strict prefix. The crash points per message are enumerated; the messages are seeded samples. Non-trivial = at least one cut was applied (types with an empty encoding have no strict prefix and are counted as skipped); distinct = distinct run fingerprints.",
+		Rule:        "one run = one canonical message of one of the 170 types (seeded value); the connection is cut after k bytes for EVERY k in 0..len-1 when the encoding is at most 4096 bytes, otherwise for 64 seeded positions plus the first field boundaries +-1; each prefix is decoded by a fresh receiver. Oracle: Decode(w[:k]) returns a non-nil error for every strict prefix. The crash points per message are enumerated; the messages are seeded samples. Non-trivial = at least one cut was applied (types with an empty encoding have no strict prefix and are counted as skipped); distinct = distinct run fingerprints.",
 		Assumptions: []string{"values canonical w.r.t. the pinned schema"},
 	})
 }
@@ -438,8 +547,10 @@ func runC11(c *RunCtx) {
 	}
 	c.Fire("net.cut")
 	c.Count("cuts", uint64(len(ks)))
+	shape := drawBufShape(t)
+	c.Logf("RECEIVE BUFFER: %s", shape)
 	for _, k := range ks {
-		buf := bytes.NewBuffer(cloneBytes(s.w[:k]))
+		buf := shape.build(c, s.w[:k])
 		recv := newValue(name)
 		r := tryDecode(recv, buf)
 		if r.Panic != nil {
@@ -461,7 +572,7 @@ func runC11(c *RunCtx) {
 func init() {
 	register(&scenario{
 		Prop: "C08", Run: runC08, Level: "exploration", Quick: 500000, Thorough: 15000000, MemLimit: true,
-		Rule: "one run = a valid encoding of one of the 170 types passed through a byte-substitution fault of the simulated wire — foreign peer (framing intact; arbitrary bytes in text fields incl. interior/all pads, NULs, >=0x80; arbitrary bit patterns in numeric fields incl. NaN payloads and sign bits; wrong self-computed length/checksum), 1-3 bit flips (uniform or aimed at prefixes/discriminators), or pure noise of the right length for fixed-size types — then decoded. Whenever Decode accepts: oracle = re-encoding the decoded object into an empty buffer reproduces exactly the bytes Decode consumed, except that self-computed frame fields (pinned positions) may be replaced by their correct values. Non-trivial = the fault changed at least one byte and the input was accepted; distinct = distinct run fingerprints.",
+		Rule:        "one run = a valid encoding of one of the 170 types passed through a byte-substitution fault of the simulated wire — foreign peer (framing intact; arbitrary bytes in text fields incl. interior/all pads, NULs, >=0x80; arbitrary bit patterns in numeric fields incl. NaN payloads and sign bits; wrong self-computed length/checksum), 1-3 bit flips (uniform or aimed at prefixes/discriminators), or pure noise of the right length for fixed-size types — then decoded. Whenever Decode accepts: oracle = re-encoding the decoded object into an empty buffer reproduces exactly the bytes Decode consumed, except that self-computed frame fields (pinned positions) may be replaced by their correct values. Non-trivial = the fault changed at least one byte and the input was accepted; distinct = distinct run fingerprints.",
 		Assumptions: []string{"pinned frame geometry for the mask of self-computed fields", "Decode's consumed count is taken from the buffer's Len() delta"},
 	})
 }
@@ -512,8 +623,21 @@ func runC08(c *RunCtx) {
 	// trailing bytes so that over-consumption is visible
 	tail := noise(t, t.Intn(6))
 	all := append(cloneBytes(w), tail...)
-	buf := bytes.NewBuffer(cloneBytes(all))
+	shape := drawBufShape(t)
+	buf := shape.build(c, all)
 	recv := newValue(name)
+	if t.Intn(4) == 3 {
+		// the receiver object is reused: it decoded another message of this type before
+		if other, ok := genSent(c, g, name); ok {
+			if rr := tryDecode(recv, bytes.NewBuffer(cloneBytes(other.w))); rr.Err == nil && rr.Panic == nil {
+				c.Fire("recv.dirty")
+				desc += " into a receiver that decoded another " + name + " before"
+			} else {
+				recv = newValue(name)
+			}
+		}
+	}
+	c.Logf("RECEIVE BUFFER: %s", shape)
 	r := tryDecode(recv, buf)
 	if r.Panic != nil {
 		c.Probe("panic-on-faulted-input(reported-by-C09)")
@@ -666,12 +790,12 @@ func faultedInput(c *RunCtx, g *Gen, hostileOnly bool) (name string, w []byte, d
 func init() {
 	register(&scenario{
 		Prop: "C09", Run: runC09, Level: "exploration", Quick: 500000, Thorough: 15000000, MemLimit: true, AbortIsViolation: true,
-		Rule: "one run = one decoder (any of the 170 types) fed one seeded faulted stream: connection cut at a seeded position, 1-3 bit flips (uniform or aimed at length/count prefixes and discriminators), a length/count prefix rewritten to max / max-1 / half-range / just beyond what is present (optionally with the tail cut away), pure noise of 0..4096 bytes, an unregistered or padded discriminator, a valid prefix followed by garbage, or another type's valid encoding. Monitors: recovered panic; logical tick budget 5000+100*len(input) on the step clock (a decoder that loops is reported deterministically); the worker process runs under the simulated machine's 2 GiB address-space limit, so a runtime out-of-memory abort kills the worker, is attributed to the open run, re-executed alone and reported. Non-trivial = the fault changed the stream and the decoder ran; distinct = distinct run fingerprints.",
+		Rule:        "one run = one decoder (any of the 170 types) fed one seeded faulted stream: connection cut at a seeded position, 1-3 bit flips (uniform or aimed at length/count prefixes and discriminators), a length/count prefix rewritten to max / max-1 / half-range / just beyond what is present (optionally with the tail cut away), pure noise of 0..4096 bytes, an unregistered or padded discriminator, a valid prefix followed by garbage, or another type's valid encoding. Monitors: recovered panic; logical tick budget 5000+100*len(input) on the step clock (a decoder that loops is reported deterministically); the worker process runs under the simulated machine's 2 GiB address-space limit, so a runtime out-of-memory abort kills the worker, is attributed to the open run, re-executed alone and reported. Non-trivial = the fault changed the stream and the decoder ran; distinct = distinct run fingerprints.",
 		Assumptions: []string{"the simulated machine has 2 GiB of address space (RLIMIT_AS on the worker)", "'time proportional to the input' is measured in instrumented statements executed, budget 5000+100 per input byte"},
 	})
 	register(&scenario{
 		Prop: "C10", Run: runC10, Level: "exploration", Quick: 400000, Thorough: 12000000, MemLimit: true, AbortIsViolation: true,
-		Rule: "one run = one decoder fed a short stream whose length/count prefix (located with the pinned schema) was rewritten to a hostile value, or a blind run of 0xFF bytes, or (control, 1 in 5) an unfaulted valid encoding. Monitor: bytes allocated during the Decode call (runtime.MemStats.TotalAlloc delta; nothing else runs in the worker) must not exceed 8 KiB + 256 bytes per input byte present; a runtime out-of-memory abort under the 2 GiB limit is attributed to the open run and reported. Non-trivial = a hostile prefix was actually written and the decoder ran; distinct = distinct run fingerprints.",
+		Rule:        "one run = one decoder fed a short stream whose length/count prefix (located with the pinned schema) was rewritten to a hostile value, or a blind run of 0xFF bytes, or (control, 1 in 5) an unfaulted valid encoding. Monitor: bytes allocated during the Decode call (runtime.MemStats.TotalAlloc delta; nothing else runs in the worker) must not exceed 8 KiB + 256 bytes per input byte present; a runtime out-of-memory abort under the 2 GiB limit is attributed to the open run and reported. Non-trivial = a hostile prefix was actually written and the decoder ran; distinct = distinct run fingerprints.",
 		Assumptions: []string{"allocation bound 8 KiB + 256 B per input byte: > 3x the densest legitimate decode measured (list of 1-byte texts: about 72 B per wire byte)", "the simulated machine has 2 GiB of address space"},
 	})
 }
@@ -683,8 +807,9 @@ func runC09(c *RunCtx) {
 		return
 	}
 	c.Count("type."+name, 1)
-	c.Logf("DECODER %s FAULT %s INPUT %s", name, desc, hexClip(w, 128))
-	buf := bytes.NewBuffer(cloneBytes(w))
+	shape := drawBufShape(c.T)
+	c.Logf("DECODER %s FAULT %s INPUT %s in %s", name, desc, hexClip(w, 128), shape)
+	buf := shape.build(c, w)
 	recv := newValue(name)
 	budget := tickBudget(len(w))
 	r := tryDecodeBudget(recv, buf, budget)
@@ -729,8 +854,9 @@ func runC10(c *RunCtx) {
 		}
 	}
 	c.Count("type."+name, 1)
-	c.Logf("DECODER %s FAULT %s INPUT %s", name, desc, hexClip(w, 128))
-	buf := bytes.NewBuffer(cloneBytes(w))
+	shape := drawBufShape(t)
+	c.Logf("DECODER %s FAULT %s INPUT %s in %s", name, desc, hexClip(w, 128), shape)
+	buf := shape.build(c, w)
 	recv := newValue(name)
 	cd := asCodec(recv)
 	var m0, m1 runtime.MemStats
@@ -769,7 +895,7 @@ func runC10(c *RunCtx) {
 func init() {
 	register(&scenario{
 		Prop: "C15", Run: runC15, Level: "exploration", Quick: 400000, Thorough: 12000000, MemLimit: true,
-		Rule: "one run = one byte string accepted by a decoder (a valid encoding, or a foreign-peer/bit-flipped one that is still accepted) decoded into a fresh receiver and into a dirty receiver whose history is seeded: previously decoded a different message of the same type (longer lists, other body/extension type), generator-filled, the same object decoded into twice, or left half-filled by a failed decode of a truncated stream. Oracle: the two results are deep-equal (numbers by bits, nil==empty list). Non-trivial = the dirty receiver really differed from a zero value and both decodes succeeded; distinct = distinct run fingerprints.",
+		Rule:        "one run = one byte string accepted by a decoder (a valid encoding, or a foreign-peer/bit-flipped one that is still accepted) decoded into a fresh receiver and into a dirty receiver whose history is seeded in two steps: first {previously decoded a different message of the same type (longer lists, other body/extension type), generator-filled, the same bytes decoded into it before, fresh}, then optionally a FAILED decode of a truncated stream (a strict prefix of another message, or of these very bytes as when a frame arrives in two segments). Oracle: the two results are deep-equal (numbers by bits, nil==empty list). Non-trivial = the dirty receiver really differed from a zero value and both decodes succeeded; distinct = distinct run fingerprints.",
 		Assumptions: []string{"only successful decodes are compared; the state left by a failed decode is outside the property"},
 	})
 }
@@ -802,7 +928,8 @@ func runC15(c *RunCtx) {
 		c.Probe("skip.not-accepted")
 		return
 	}
-	// dirty receiver
+	// dirty receiver: a first step fills it, an optional second step is a failed attempt on a
+	// partial stream (what a receive loop does between two complete frames)
 	var dirty any
 	how := ""
 	switch t.Intn(5) {
@@ -843,16 +970,35 @@ func runC15(c *RunCtx) {
 		}
 		how = "same bytes decoded into it before"
 	default:
-		// a failed decode of a truncated different message left it half-filled
-		other, ok := genSent(c, g, name)
-		if !ok || len(other.w) == 0 {
-			return
-		}
 		dirty = newValue(name)
-		k := t.Intn(len(other.w))
-		tryDecode(dirty, bytes.NewBuffer(cloneBytes(other.w[:k])))
-		how = fmt.Sprintf("half-filled by a failed decode of %d/%d bytes of another message", k, len(other.w))
-		c.LogValue("RECEIVER HELD", dirty)
+		how = "fresh"
+	}
+	switch t.Intn(4) {
+	case 0, 1:
+	case 2:
+		// then a failed decode of a truncated different message
+		other, ok := genSent(c, g, name)
+		if ok && len(other.w) > 0 {
+			k := t.Intn(len(other.w))
+			tryDecode(dirty, bytes.NewBuffer(cloneBytes(other.w[:k])))
+			how += fmt.Sprintf(", then was left half-filled by a failed decode of %d/%d bytes of another message", k, len(other.w))
+			c.Probe("history.failed-partial-other")
+		}
+	default:
+		// then a failed attempt on a strict prefix of these very bytes (the frame arrived in two segments)
+		if len(w) > 0 {
+			k := t.Intn(len(w))
+			if t.Intn(2) == 0 {
+				k = t.Intn(min(len(w), 24))
+			}
+			if rr := tryDecode(dirty, bytes.NewBuffer(cloneBytes(w[:k]))); rr.Err != nil || rr.Panic != nil {
+				how += fmt.Sprintf(", then failed on the first %d of these %d bytes (partial segment)", k, len(w))
+				c.Probe("history.failed-partial-same")
+			}
+		}
+	}
+	if c.Tracing {
+		c.LogValue("RECEIVER NOW HOLDS", dirty)
 	}
 	if same, _ := Equal(dirty, newValue(name)); !same {
 		c.Fire("recv.dirty")
@@ -888,7 +1034,7 @@ func runC15(c *RunCtx) {
 func init() {
 	register(&scenario{
 		Prop: "C16", Run: runC16, Level: "exploration", Quick: 400000, Thorough: 12000000,
-		Rule: "one run = (decode side) a canonical message's bytes placed in a pooled buffer over a simulator-owned backing array, decoded, the result deep-copied (texts byte-copied), then the pool recycles the buffer: every byte of the array's capacity is overwritten, the buffer Reset and reused for other traffic which is decoded too; or (encode side) a message encoded into a pooled buffer, the bytes snapshotted, then every list element, text and nested part of the message overwritten in place and bodies replaced, then another message encoded behind it. Oracles: decoded message == its copy after recycling; written bytes == snapshot after mutating the message and after the next encode. Non-trivial = the recycle/mutation actually changed memory and the oracle ran; distinct = distinct run fingerprints.",
+		Rule:        "one run = (decode side) a canonical message's bytes placed in a pooled buffer over a simulator-owned backing array, decoded, the result deep-copied (texts byte-copied), then the pool recycles the buffer: every byte of the array's capacity is overwritten, the buffer Reset and reused for other traffic which is decoded too; or (encode side) a message encoded into a pooled buffer, the bytes snapshotted, then every list element, text and nested part of the message overwritten in place and bodies replaced, then another message encoded behind it. Oracles: decoded message == its copy after recycling; written bytes == snapshot after mutating the message and after the next encode. Non-trivial = the recycle/mutation actually changed memory and the oracle ran; distinct = distinct run fingerprints.",
 		Assumptions: []string{"Go strings are never written through; only simulator-owned arrays and the message's own slices are overwritten"},
 	})
 }
